@@ -16,6 +16,7 @@ RULE = ("components of types OverdampedBrownian, OverdampedBrownian-HighTemperat
         "with '+', plus in-place chains, self-addition, refused temperature mismatches, measured-vs-declared reorganisation energy and Fourier parity; "
         "the same for SpectralDensity with its two constructible types. distinct = (class, function kind, component-type multiset, permutation, bracketing); "
         "non-trivial iff the components are pairwise different functions (max|a-b| > 1e-3 max|a|) and at least two types occur or k >= 3.")
+RULE = RULE + " Round-6 workloads: every expression tree is evaluated outside any units context or inside one of 1/cm, eV, THz, meV."
 ASSUMPTIONS = ["additions are performed outside units contexts (the quantifier names unit contexts used for construction)",
                "value-defined functions occur only as right-hand operands and are never part of a left operand that has to be rebuilt",
                "'measured = declared' is claimed for the analytic overdamped types, against the finite-axis value lambda(1-exp(-Tmax/tau)); "
